@@ -81,6 +81,29 @@ def entry_points():
     # kernel-vector products
     eps.append(("kernel_matmul_self", lambda p, x, y, xt, key: k_sum(p).matmul(x, y=y), False))
     eps.append(("kernel_matmul_cross", lambda p, x, y, xt, key: k_sum(p).matmul(xt, x, y), True))
+    # structured (time, band) coordinates with a user wrapper whose observation model depends on the band (the documented multiband pattern):
+    # likelihood, conditioning and prediction at the training inputs stay linear in N for pytree inputs too
+    class _Multiband(qs.Wrapper):
+        amplitudes: jax.Array
+
+        def coord_to_sortable(self, X):
+            return X[0]
+
+        def observation_model(self, X):
+            return self.amplitudes[X[1]] * self.kernel.observation_model(X[0])
+
+    def k_mb(p):
+        return _Multiband(kernel=qs.Matern32(p["a"], p["b"]), amplitudes=jnp.stack([1.0 + 0 * p["a"], p["b"], 1.0 + p["d"]]))
+
+    def mk_s(name, body):
+        def f(p, x, y, xt, key):
+            X = (x, jnp.arange(x.shape[0]) % 3)
+            gp = GaussianProcess(k_mb(p), X, diag=p["d"] * jnp.ones(x.shape[0]))
+            return body(gp, y)
+        eps.append((name, f, False))
+    mk_s("logp[multiband/structured]", lambda gp, y: gp.log_probability(y))
+    mk_s("cond_train_mean_var[multiband/structured]", lambda gp, y: (lambda c: (c.loc, c.variance))(gp.condition(y).gp))
+    mk_s("predict_train_var[multiband/structured]", lambda gp, y: gp.predict(y, return_var=True))
     # positive control: must be rejected (dense N x N covariance)
     control = ("CONTROL_dense_covariance",
                lambda p, x, y, xt, key: GaussianProcess(k_m32(p), x, diag=p["d"] * jnp.ones(x.shape[0])).covariance, False)
